@@ -184,6 +184,12 @@ def consumers(rel, ref, res, tier):
                 r = call(iban.validate, w, check_country=False)
                 if r[0] != 'ok':
                     fail('consumer-iban', lo, w, 'well-formed witness %r is rejected: %s' % (w, r[1]))
+                elif not os.path.exists(os.path.join(core.REPO, 'stdnum', lo.lower(), 'iban.py')):
+                    # no national IBAN module for this country: the default validation accepts the witness as well
+                    n += 1
+                    r = call(iban.validate, w)
+                    if r[0] != 'ok':
+                        fail('consumer-iban', lo, w, 'well-formed witness %r of a country without a national module is rejected by the default validation: %s' % (w, r[1]))
     elif name == 'gs1_ai':
         from stdnum import gs1_128
         text = open(os.path.join(core.REPO, rel), encoding='utf-8').read()
@@ -252,7 +258,8 @@ def consumers(rel, ref, res, tier):
                         cands = table['witness'](prefix + w, len(parents))
                         if cands:
                             n += 1
-                            if not any(call(table['accepts'], c) == ('ok', True) for c in cands):
+                            acc_ = table['accepts'] if 'accepts_props' not in table else (lambda c_: table['accepts_props'](c_, merged))
+                            if not any(call(acc_, c) == ('ok', True) for c in cands):
                                 fail('validate-' + name.replace('/', '-'), (prefix + '/' if prefix else '') + (lo if lo == hi else lo + '-' + hi),
                                      cands[0], 'none of the %d numbers %r ... under entry %r is accepted by %s' % (
                                          len(cands), cands[0], prefix + w, table['accepts_fn']))
@@ -295,7 +302,9 @@ def _mk():
                                 witness=lambda p, d: [p], accepts=postleitzahl.is_valid, accepts_fn='at.postleitzahl.is_valid'),
         'at/fa': dict(fn='at.tin.info', call=at_tin.info, build=lambda p, d: p + '0000000', ok=has,
                       witness=lambda p, d: ['%s%07d' % (p, b) for b in range(1230, 1330)] if len(p) == 2 else None,
-                      accepts=at_tin.is_valid, accepts_fn='at.tin.is_valid'),
+                      # ... also when the caller names the entry's own office
+                      accepts=at_tin.is_valid, accepts_fn='at.tin.is_valid(number, office=<office of the entry>)',
+                      accepts_props=lambda c, props: at_tin.is_valid(c) and at_tin.is_valid(c, office=props.get('office'))),
         'be/banks': dict(fn='be.iban.info', call=be_iban.info, build=lambda p, d: 'BE00' + p + '000000000', ok=has,
                          witness=be_witness, accepts=be_iban.is_valid, accepts_fn='be.iban.is_valid'),
         'cz/banks': dict(fn='cz.bankaccount.info', call=cz_ba.info, build=lambda p, d: '19-2000145399/' + p, ok=has,
